@@ -68,6 +68,7 @@ Progress == TLCSet(tid, <<l - 1, fails>>)
 Post == \A i \in 1..Len(Traces) :
           LET r == TLCGet(i) IN
           /\ (Traces[i].ref_err # "" => PrintT(<<"FAIL", Traces[i].id, [line |-> 0, clause |-> "Refstring", why |-> Traces[i].ref_err, nactive |-> 0]>>))
+          /\ (~Traces[i].deep_ok => PrintT(<<"FAIL", Traces[i].id, [line |-> 0, clause |-> "Refstring", why |-> "two-scopes-deep", nactive |-> 0]>>))
           /\ (Traces[i].stray # <<>> => PrintT(<<"FAIL", Traces[i].id, [line |-> 0, clause |-> "ModuleGlobalsPolluted", why |-> Traces[i].stray[1], nactive |-> 0]>>))
           /\ (r[1] # Len(Traces[i].steps) => PrintT(<<"INCOMPLETE", Traces[i].id, r[1]>>))
           /\ \A k \in DOMAIN r[2] : PrintT(<<"FAIL", Traces[i].id, r[2][k]>>)
